@@ -28,7 +28,7 @@ var procsList = []string{"1", "2", "4", "16"}
 // content via the CSV parsed back.
 func schedCase(id int, dir string, c *Case, args []string, run *Run) {
 	same, race, runs := 1, 0, 0
-	detail := ""
+	detail, crashed := "", ""
 	repsPlain, repsRace := hx.N(2, 6), hx.N(1, 3)
 	if os.Getenv("VERIF_TIER") != "thorough" {
 		repsPlain, repsRace = 2, 1
@@ -59,6 +59,9 @@ func schedCase(id int, dir string, c *Case, args []string, run *Run) {
 					if !bytes.Equal(out, wantOut) || !bytes.Equal(errb, wantErr) || code != 0 {
 						same = 0
 						detail = fmt.Sprintf("bytes differ procs=%s rep=%d format=%s race=%v code=%d", p, rep, format, isRace, code)
+						if bytes.Contains(errb, []byte("panic:")) || bytes.Contains(errb, []byte("fatal error:")) {
+							crashed = fmt.Sprintf("benchstat procs=%s format=%s race=%v: %s", p, format, isRace, firstPanicLine(errb))
+						}
 					}
 				}
 			}
@@ -115,6 +118,9 @@ func schedCase(id int, dir string, c *Case, args []string, run *Run) {
 		hx.Printf("sobs %d same=%d race=%d perm=%d bin=%s detail=%s\n", id, same, race, perm, bin, strings.ReplaceAll(detail, " ", "_"))
 	} else {
 		hx.Printf("sobs %d same=%d race=%d perm=%d bin=%s\n", id, same, race, perm, bin)
+	}
+	if crashed != "" {
+		hx.Printf("crash %d %s\n", id, crashed)
 	}
 	_ = runs
 }
